@@ -3240,6 +3240,7 @@ def _check_entry_for_changes(
     root_path: bytes,
     filter_blob_callback: Callable[[Blob, bytes], Blob] | None = None,
     trust_ctime: bool = True,
+    honor_filemode: bool = False,
 ) -> bytes | None:
     """Check a single index entry for changes.
 
@@ -3249,6 +3250,8 @@ def _check_entry_for_changes(
       root_path: Root filesystem path
       filter_blob_callback: Optional callback to filter blobs
       trust_ctime: If True, use ctime for change detection (default: True)
+      honor_filemode: If True, a flipped executable bit counts as a change
+        (core.filemode)
     Returns: tree_path if changed, None otherwise
     """
     if isinstance(entry, ConflictedIndexEntry):
@@ -3265,6 +3268,15 @@ def _check_entry_for_changes(
 
         if not stat.S_ISREG(st.st_mode) and not stat.S_ISLNK(st.st_mode):
             return None
+
+        if (
+            honor_filemode
+            and stat.S_ISREG(st.st_mode)
+            and stat.S_ISREG(entry.mode)
+            and (st.st_mode ^ entry.mode) & 0o100
+        ):
+            # Same content or not, the executable bit was flipped
+            return tree_path
 
         # Optimization: If stat matches index entry (mtime and size unchanged),
         # we can skip reading and filtering the file entirely. This is a significant
@@ -3297,6 +3309,7 @@ def get_unstaged_changes(
     preload_index: bool = False,
     trust_ctime: bool = True,
     max_stat: int | None = None,
+    honor_filemode: bool = False,
 ) -> Generator[bytes, None, None]:
     """Walk through an index and check for differences against working tree.
 
@@ -3308,6 +3321,8 @@ def get_unstaged_changes(
       trust_ctime: If True, use ctime for change detection (default: True)
       max_stat: If set, limit the number of stat operations performed.
         When the limit is reached, remaining files are assumed unchanged.
+      honor_filemode: If True, report files whose executable bit differs from
+        the index entry (core.filemode)
     Returns: iterator over paths with unstaged changes
     """
     # For each entry in the index check the sha1 & ensure not staged
@@ -3346,6 +3361,7 @@ def get_unstaged_changes(
                         root_path,
                         filter_blob_callback,
                         trust_ctime,
+                        honor_filemode,
                     )
                     for tree_path, entry in entries
                 ]
@@ -3362,7 +3378,12 @@ def get_unstaged_changes(
             if max_stat is not None and stat_count >= max_stat:
                 return
             result = _check_entry_for_changes(
-                tree_path, entry, root_path, filter_blob_callback, trust_ctime
+                tree_path,
+                entry,
+                root_path,
+                filter_blob_callback,
+                trust_ctime,
+                honor_filemode,
             )
             stat_count += 1
             if result is not None:
